@@ -490,7 +490,7 @@ def emit_case(sess, obs, facts) -> str:
                 core.cbool(o["run"]), item_prog(it, cid, facts), core.cbool(seeded), core.cbool(closed), cid,
                 int(it.get("proc", 0)), m_aux, o["pre"],
                 core.clist(str(x) for x in o["inner"]), o["post"], core.clist(str(x) for x in o["draws"]),
-                core.cz(o["res"]), core.cbool(o["raised"]), o_aux, core.cbool(it.get("op") == "calibration"),
+                core.cz(o["res"]), core.cbool(o["raised"]), o_aux, core.cbool(it.get("op") == "calibration" or bool(it.get("dask"))),
                 trace_lit(o.get("trace", []))))
     return "[" + ";\n   ".join(rows) + "]"
 
